@@ -348,6 +348,9 @@ def geometry_cases(rng, tier):
         d = bytes(rng.randrange(256) for _ in range(7))
         p = [str(x).encode() for x in (pred, rng.choice([1, 0, -5]), rng.choice([1, 0, 2147483647]), rng.choice([8, 3, 0]))]
         out.append(Case("unpredict", p + [zlib.compress(d)], mfields=p + [d], expect=ok(d) if pred == 1 else None, kind="structured" if pred == 1 else "malformed", tags=["pred-none"]))
+    # rows cut at every position, exhaustive over the length (never a panic; model agreement)
+    for (pred, c, w, b, mid) in C.short_row_sweep():
+        out.append(raw_unpredict(pred, c, w, b, mid, tags=("malformed", "short-row")))
     # hostile geometry (C05-h): never a panic, abort or absurd allocation
     I = 2147483647
     for pred in (2, 10, 12, 15, I):
